@@ -15,9 +15,13 @@
 #include <mutex>
 #include <pthread.h>
 #include <sched.h>
+#include <signal.h>
 #include <sys/types.h>
 #include <sys/wait.h>
 #include <time.h>
+#include <unistd.h>
+#include <fcntl.h>
+#include <string>
 
 extern std::mutex log_synchronization;  // tfel-check/src/tfel-check.cxx
 int tfel_check_real_main(const int, const char* const* const);
@@ -102,11 +106,45 @@ pid_t __wrap_waitpid(pid_t pid, int* status, int options) {
 }
 }
 
+// Diagnosis only, never a verdict by itself: if tfel-check has not finished after C52_WATCHDOG seconds (it does deadlock
+// now and then: a SIGCHLD handler locking processesAccess in a thread that already holds it), ask gdb for the stacks of
+// all threads, store them next to the trace and leave with status 97.
+static void* watchdog(void* arg) {
+  const long s = reinterpret_cast<long>(arg);
+  timespec t{s, 0};
+  while (nanosleep(&t, &t) == -1 && errno == EINTR) {
+  }
+  const char* f = std::getenv("C52_TRACE");
+  const std::string out = std::string(f != nullptr ? f : "/dev/null") + ".hang";
+  const std::string pid = std::to_string(getpid());
+  const pid_t p = fork();
+  if (p == 0) {
+    const int fd = open(out.c_str(), O_WRONLY | O_CREAT | O_TRUNC, 0644);
+    if (fd >= 0) {
+      dup2(fd, 1);
+      dup2(fd, 2);
+    }
+    execlp("gdb", "gdb", "-q", "-batch", "-p", pid.c_str(), "-ex", "thread apply all bt 16", static_cast<char*>(nullptr));
+    _exit(127);
+  }
+  int st = 0;
+  if (p > 0) __real_waitpid(p, &st, 0);
+  _exit(97);
+}
+
 int main(const int argc, const char* const* const argv) {
   me = nthreads.fetch_add(1);  // the main thread is thread 0
   if (const char* s = std::getenv("C52_SEED")) seed = std::strtoull(s, nullptr, 10);
   if (const char* s = std::getenv("C52_PERTURB")) perturb = std::atoi(s);
   log_mutex = log_synchronization.native_handle();
+  if (const char* s = std::getenv("C52_WATCHDOG")) {
+    sigset_t all, old;
+    sigfillset(&all);
+    pthread_sigmask(SIG_BLOCK, &all, &old);  // the watchdog thread takes no signal
+    pthread_t th;
+    pthread_create(&th, nullptr, watchdog, reinterpret_cast<void*>(std::atol(s)));
+    pthread_sigmask(SIG_SETMASK, &old, nullptr);
+  }
   evlog = static_cast<Event*>(std::calloc(LOGMAX, sizeof(Event)));
   const int rc = tfel_check_real_main(argc, argv);
   if (const char* f = std::getenv("C52_TRACE")) {
